@@ -88,6 +88,21 @@ def parse_name(s, n):
     return sorted(bag)
 
 
+GIVEN = ["len", "len_sq", "n", "len_sq_n", "w", "w2", "len2", "x1"]      # caller-supplied column names, some contained in others
+
+
+def parse_given(s, given):
+    if s == "1":
+        return []
+    bag = []
+    for tok in s.split():
+        name, _, e = tok.partition("^")
+        if name not in given:
+            return [-1]
+        bag += [given.index(name)] * (int(e) if e else 1)
+    return sorted(bag)
+
+
 def run_est(ctx, n, degree, io, bias, kind, rng, ef=None):
     """One block on estimator `ef` (a fresh one if None): set_params, fit, transform, names."""
     from mlinsights.mlmodel import ExtendedFeatures
@@ -102,7 +117,14 @@ def run_est(ctx, n, degree, io, bias, kind, rng, ef=None):
     ref = pf.transform(X)
     cols = [factor(v, n) for v in out[0]]
     names = [parse_name(s, n) for s in ef.get_feature_names_out()]
-    return dict(n=n, degree=degree, io=io, bias=bias, kind=kind, cols=cols, names=names,
+    given = GIVEN[:n]
+    names_given = [parse_given(s, given) for s in ef.get_feature_names_out(given)]
+    # a second call on other values of the same shape (train / test halves): both results are right afterwards
+    snap = out.copy()
+    X2 = X[::-1] * 2.0 + 1.0
+    out2 = ef.transform(X2)
+    kept = bool(numpy.array_equal(out, snap) and numpy.array_equal(out2, pf.transform(X2)))
+    return dict(names_given=names_given, kept=kept, n=n, degree=degree, io=io, bias=bias, kind=kind, cols=cols, names=names,
                 nout=int(ef.n_output_features_), skcols=skb,
                 eqsk=bool(out.shape == ref.shape and numpy.array_equal(out, ref)))
 
